@@ -183,6 +183,7 @@ GenStmts(sigs, ss, env, st) ==
 
 PVar(p) == V("p_" \o p)
 \* the constraint problem of a function: [eqs, params, res] as FoInfer!Principal takes it
+\* f.rtype (optional): the result type written in the source.
 \* f.ptypes (optional): parameters whose type is written in the source, <<<<name, type>>, ...>> (a match target must be annotated)
 GivenType(f, p) == IF "ptypes" \in DOMAIN f /\ \E i \in 1..Len(f.ptypes) : f.ptypes[i][1] = p
                    THEN f.ptypes[CHOOSE i \in 1..Len(f.ptypes) : f.ptypes[i][1] = p][2] ELSE PVar(p)
@@ -194,7 +195,9 @@ Problem(sigs, f) ==
                  IF p = "<self>" THEN Fu(ptys, ret) ELSE GivenType(f, p)]
       b == GenStmts(sigs, f.stmts, env0, St(<<>>, 0))
       r == GenE(sigs, f.fin, b.env, b.st)
-  IN [eqs |-> Append(r.st.eqs, <<ret, r.t>>), params |-> ptys, res |-> r.t]
+      \* f.rtype (optional): the result type written in the source (let f a b : T = ...), one more equation
+      given == IF "rtype" \in DOMAIN f THEN <<<<ret, f.rtype>>>> ELSE <<>>
+  IN [eqs |-> Append(r.st.eqs, <<ret, r.t>>) \o given, params |-> ptys, res |-> r.t]
 
 \* generalisation: the type scheme of a top-level function, for its uses in later functions
 RECURSIVE ToScheme(_, _)
